@@ -8,10 +8,12 @@ from .. import translate_schema as TS
 PROP = "C01"
 COQ_EXTRA = ["theories/Model/ConvertCases.vo", "theories/Model/RoundTripCases.vo", "theories/Model/TypedCases.vo", "theories/Gen/TypedGen.vo", "theories/Gen/SchemaS.vo"]
 IMPORTS = ["Model.Schema", "Model.Convert", "Model.ConvertCases", "Model.RoundTripCases", "Gen.SchemaGen", "Gen.SchemaS"]
-TIMPORTS = ["Model.Schema", "Model.Convert", "Model.Scalars", "Model.PyDecimal", "Model.Typed", "Model.ConvertCases", "Model.TypedCases", "Gen.SchemaGen", "Gen.SchemaS", "Gen.TypedGen"]
+TIMPORTS = ["Model.Schema", "Model.Convert", "Model.Scalars", "Model.PyDecimal", "Model.Typed", "Model.ConvertCases", "Model.TypedCases", "Gen.SchemaGen", "Gen.SchemaS", "Gen.TypedGen", "Gen.DateTimeGen"]
 PARTIAL = ["proved: the tree-level round trip (roundtrip_tree, RoundTrip1-6) and its composition with the wire theorem of the Sgml/Serialize engine (wire_roundtrip_closed / "
            "wire_roundtrip_unclosed: to_etree -> serializer text -> tokenizer + tree builder -> from_etree returns the same instance, plain and pretty-printed); the hypothesis "
-           "conv (escape (unconv v)) = Some v on element values is C09/C10's subject; file_roundtrip_v2 / file_roundtrip_v1 / client_bytes_roundtrip_v2 / _v1 compose these with the header engine's "
+           "conv (escape (unconv v)) = Some v on element values is discharged for Bool/String/NagString/OneOf/Integer/Decimal by held_value_reads_back (C10 engine) and for "
+           "DateTime/Time by held_datetime_reads_back (C09 engine; millisecond-precision instants, years 1000..9998, any writer conforming to writes_instants / writes_times - "
+           "utc_writer_conforms shows the UTC writer is one); file_roundtrip_v2 / file_roundtrip_v1 / client_bytes_roundtrip_v2 / _v1 compose these with the header engine's "
            "parse_header_exact theorems into one statement over the BYTES of a file (any tolerated header layout ++ encoded body -> parse_header -> tokenizer -> tree builder -> from_etree "
            "gives the header and the same instance); lone surrogates in the text are excluded there (scalar_text); "
            "the complete file round trip is also exercised on the implementation for every class x 6 wire forms x header versions",
@@ -122,7 +124,7 @@ def enc_pyval(v):
     raise ValueError("unencodable value %r" % (v,))
 
 
-def enc_pinst(ctx, obj, udt=None):
+def enc_pinst(ctx, obj, udt=None, vals=None):
     T = ctx.Types
     cls = type(obj)
     fields = []
@@ -131,19 +133,21 @@ def enc_pinst(ctx, obj, udt=None):
         if v is None:
             fields.append("(%s,FNone _)" % H.cs(k))
         elif isinstance(v, ctx.Aggregate):
-            fields.append("(%s,FSub _ %s)" % (H.cs(k), enc_pinst(ctx, v, udt)))
+            fields.append("(%s,FSub _ %s)" % (H.cs(k), enc_pinst(ctx, v, udt, vals)))
         else:
             if udt is not None and type(t) in (T.DateTime, T.Time):
                 udt[(type(t) is T.Time, enc_pyval(v))] = H.outcome(t.unconvert, v)
+                if vals is not None: vals.setdefault((type(t) is T.Time, enc_pyval(v)), []).append(v)
             fields.append("(%s,FVal _ (%s))" % (H.cs(k), enc_pyval(v)))
     mems = []
     le = [t for k, t in cls.spec.items() if isinstance(t, T.ListElement)]
     for m in obj:
         if isinstance(m, ctx.Aggregate):
-            mems.append("MAgg _ %s" % enc_pinst(ctx, m, udt))
+            mems.append("MAgg _ %s" % enc_pinst(ctx, m, udt, vals))
         elif isinstance(obj, ctx.ElementList):
             if udt is not None and le and type(le[0].converter) in (T.DateTime, T.Time) and m is not None:
                 udt[(type(le[0].converter) is T.Time, enc_pyval(m))] = H.outcome(le[0].unconvert, m)
+                if vals is not None: vals.setdefault((type(le[0].converter) is T.Time, enc_pyval(m)), []).append(m)
             mems.append("MVal _ %s" % ("None" if m is None else "(Some (%s))" % enc_pyval(m)))
         else:
             mems.append("MStr _ %s" % C.ctext(m))
@@ -173,19 +177,35 @@ def enc_res_pyval(out):
     return "Err Reject" if out[0] == "reject" else "Err Crash"
 
 
+def _is_utc(v):
+    try:
+        return v.tzinfo is not None and v.utcoffset() == _dt.timedelta(0) and v.tzname() == "UTC"
+    except Exception:
+        return False
+
+
 def typed_cases(ctx, obj, tree, back, wtags):
-    """TTo: the typed model writes the real instance; TFrom: the typed model reads the tree the library wrote"""
+    """TTo: the typed model writes the real instance; TFrom: the typed model reads the tree the library wrote (date-times through tables
+    filled by the real converters).  TFromM / TToM: the same with the date-time converters of the C09 engine (no table on the reading
+    side; on the writing side a table only for values whose tzinfo is not UTC)"""
     out = []
     try:
         udt = {}
-        enc = enc_pinst(ctx, obj, udt)
+        vals = {}
+        enc = enc_pinst(ctx, obj, udt, vals)
         utb = "[" + ";".join("(%s,%s,%s)" % (C.cbool(k[0]), k[1], H.enc_result(o, C.ctext)) for k, o in udt.items()) + "]"
-        out.append("TTo %s %s (OK %s)" % (utb, enc, H.enc_etree(tree)))
+        etree_enc = H.enc_etree(tree)
+        out.append("TTo %s %s (OK %s)" % (utb, enc, etree_enc))
+        zoned = {k: o for k, o in udt.items() if not all(_is_utc(v) for v in vals[k])}
+        if all(all(_is_utc(v) for v in vals[k]) or not any(_is_utc(v) for v in vals[k]) for k in udt):   # an instant held in two zones at once: the table cannot tell them apart
+            ztb = "[" + ";".join("(%s,%s,%s)" % (C.cbool(k[0]), k[1], H.enc_result(o, C.ctext)) for k, o in zoned.items()) + "]"
+            out.append("TToM %s %s (OK %s)" % (ztb, enc, etree_enc))
         tb = {}
         dt_table_for_tree(ctx, tree, tb)
         ttb = "[" + ";".join("(%s,%s,%s)" % (C.cbool(k[0]), C.ctext(k[1]), enc_res_pyval(o)) for k, o in tb.items()) + "]"
         exp = H.enc_result(back, lambda i: "(%s,[%s])" % (enc_pinst(ctx, i), ";".join(H.cs(t) for t in wtags)))
-        out.append("TFrom %s %s (%s)" % (ttb, H.enc_etree(tree), exp))
+        out.append("TFrom %s %s (%s)" % (ttb, etree_enc, exp))
+        out.append("TFromM %s (%s)" % (etree_enc, exp))
     except ValueError:
         pass
     return out
